@@ -23,7 +23,7 @@ import copy
 import json
 
 FEATURES = ("lit", "pos_default", "kw_default", "set_const", "tuple_const", "lambda_const", "lambda_default",
-            "inner_const", "inner_default", "comp_const")
+            "inner_const", "inner_default", "comp_const", "set_tuple_const", "set_bytes_const")
 
 
 def mkfunc(name, kind="memento", module="a", calls=(), reads=(), version=None, rich=True, cluster=None):
@@ -32,7 +32,10 @@ def mkfunc(name, kind="memento", module="a", calls=(), reads=(), version=None, r
          "calls": [dict(c) for c in calls], "raises": False}
     if rich:
         f.update({"set_const": ["pa", "qb", "rc", "sd", "te"], "tuple_const": [1, 2], "lambda_const": 100,
-                  "lambda_default": 5, "inner_const": 1000, "inner_default": 6, "comp_const": 2})
+                  "lambda_default": 5, "inner_const": 1000, "inner_default": 6, "comp_const": 2,
+                  # set literals without a direct string element: tuples of strings, bytes (membership test = frozenset constant)
+                  "set_tuple_const": [["eur", "usd"], ["gbp", "usd"], ["chf", "eur"], ["jpy", "usd"], ["eur", "jpy"]],
+                  "set_bytes_const": ["bin", "hex", "oct", "dec", "b64"]})
     return f
 
 
@@ -74,6 +77,8 @@ def _call_expr(c, in_module, prog):
         return "str(%s(%s)).strip()" % (t, a)
     if form == "arg":
         return "fnarg(%s)" % a
+    if form == "passfn":  # call the target and hand it another function as an argument
+        return "%s(%s, fnarg=%s)" % (t, a, c["fn"])
     raise ValueError(form)
 
 
@@ -87,6 +92,12 @@ def render_func(f, prog, plain):
     if "set_const" in f:
         out.append("    acc.append(sorted(s for s in {%s}))" % ", ".join(repr(s) for s in f["set_const"]))
         out.append("    acc.append(list((%s,)))" % ", ".join(repr(s) for s in f["tuple_const"]))
+    if "set_tuple_const" in f:
+        out.append("    acc.append([('eur', 'usd') in {%s}, sorted(t for t in {%s})])"
+                   % (", ".join(repr(tuple(t)) for t in f["set_tuple_const"]), ", ".join(repr(tuple(t)) for t in f["set_tuple_const"])))
+        out.append("    acc.append([b'bin' in {%s}, sorted(t.decode() for t in {%s})])"
+                   % (", ".join(repr(t.encode()) for t in f["set_bytes_const"]), ", ".join(repr(t.encode()) for t in f["set_bytes_const"])))
+    if "set_const" in f:
         out.append("    acc.append((lambda z=%r: z + %r)())" % (f["lambda_default"], f["lambda_const"]))
         out.append("    acc.append([i * %r for i in range(2)])" % f["comp_const"])
         out.append("    def inner(w=%r):" % f["inner_default"])
@@ -217,6 +228,11 @@ def edit_sites(prog):
             sites.append(("retarget", f["name"], i))
     for v in prog.get("vars", {}):
         sites.append(("var", v, None))
+    if prog.get("copy_edits"):  # give one variable the value another one holds
+        for dst in prog["vars"]:
+            for src in prog["vars"]:
+                if dst != src and type(prog["vars"][dst]) is type(prog["vars"][src]) and prog["vars"][dst] != prog["vars"][src]:
+                    sites.append(("varcopy", dst, src))
     for cn, attrs in prog.get("classes", {}).items():
         for a in attrs:
             sites.append(("classattr", cn, a))
@@ -273,6 +289,11 @@ def _apply_edit(prog, site):
         return p
     if kind == "var":
         p["vars"][where] = _bump(p["vars"][where])
+        return p
+    if kind == "varcopy":
+        if p["vars"][where] == p["vars"][what]:
+            return None
+        p["vars"][where] = copy.deepcopy(p["vars"][what])
         return p
     if kind == "classattr":
         p["classes"][where][what] = _bump(p["classes"][where][what])
